@@ -23,6 +23,7 @@ CONSTANTS MaxBlocks,      \* 1..3
           AnnModes,       \* subset of {"none","blk","bi"}
           WithProxyDel,   \* BOOLEAN: generate retarget_to_proxy deletions
           CfiLayouts,     \* subset of {"none","proc_all","proc_each","proc_rs"}
+          Isa,            \* "x64" | "ia32" | "arm64": instruction sizes of the rendered module
           Emit            \* BOOLEAN: print cases
 
 VARIABLES shape, reqs
@@ -48,12 +49,13 @@ TemplateUnits(tpl, i, tgt) ==
 IsData(tpl) == tpl \in {"d3", "dq"}
 
 UnitSize(un) ==
+  IF Isa = "arm64" /\ un[1] \notin {"d", "dq"} THEN 4 ELSE
   CASE un[1] = "op" -> un[2]
     [] un[1] \in {"jmp", "call"} -> 5
     [] un[1] = "jcc" -> 6
     [] un[1] = "ret" -> 1
     [] un[1] \in {"ijmp", "icall"} -> 2
-    [] un[1] = "ref" -> 7
+    [] un[1] = "ref" -> IF Isa = "ia32" THEN 6 ELSE 7
     [] un[1] = "d" -> un[2]
     [] un[1] = "dq" -> 8
 
@@ -121,7 +123,8 @@ ShapeParams ==
      /\ (p.cl = "proc_rs" /\ p.nb >= 2 => ~IsData(p.tpl[2]))}
 
 MkShape(p) ==
-  [sections |-> <<[name |-> ".text",
+  [isa |-> Isa, fmt |-> "elf",
+   sections |-> <<[name |-> ".text",
                    blocks |-> [i \in 1..p.nb |->
                        MkBlock(i, p.nb, p.tpl[i], p.tgt, p.layout, i \in p.es, p.am, p.annAt, p.cl)]]>>]
 
